@@ -5,23 +5,23 @@ CONSTANTS
   RecHdr = 1
   BatchHdr = 1
   Queues = {0, 1}
-  MaxOps = 4
-  MaxPost = 1
-  MaxCrashes = 1
-  Policy = "do_nothing"
-  LossModels = {"process", "power"}
+  MaxOps = 3
+  MaxPost = 2
+  MaxCrashes = 0
+  Policy = "always_flush"
+  LossModels = {}
   GcAlwaysSyncs = TRUE
   OpenSizesLast = TRUE
   PayLens = {2, 9}
   BatchSizes = {1, 2}
-  AllowExplicit = FALSE
+  AllowExplicit = TRUE
   MaxDamage = 0
   DamageKinds = {}
   CrcQuarantinesBlock = FALSE
   MinOpsBeforeCrash = 0
-  WithPersistCalls = TRUE
-  WithNoops = FALSE
+  WithPersistCalls = FALSE
+  WithNoops = TRUE
 INIT MCInit
 NEXT MCNext
-INVARIANTS VerdictOk Refines BatchAtomic BufInv
+INVARIANTS NoTraceStep VerdictOk Refines NextAboveAssigned BatchAtomic FilesBound BytesTrack BufInv ZerosAhead
 CHECK_DEADLOCK FALSE
